@@ -21,9 +21,25 @@ type Canon struct {
 	expand map[types.Object]ast.Expr
 	tuple  map[types.Object]tupleDef
 	names  map[types.Object]string // distinct locals sharing a name: err, err_2, err_3 (declaration order)
-	alias  map[types.Object]string // local -> the name the rule tables know it by (a renamed local recognised by its signature)
+	alias  map[types.Object]LocalAlias // local -> the name (and ordinal among same-named locals) the rule tables know it by
 	base   map[types.Object]string // local -> alias or source name, without scope suffix
 	depth  int
+	// obsCand: single-assignment locals whose definition contains calls. ObsOK (set by the owner of the call graph)
+	// decides per use whether the definition may be substituted (all callees deterministic observers, nothing in
+	// between that changes what they read).
+	obsCand map[types.Object]ast.Expr
+	ObsOK   func(o types.Object, def ast.Expr, use *ast.Ident) bool
+}
+
+func (c *Canon) obsDef(o types.Object, use *ast.Ident) (ast.Expr, bool) {
+	if c.ObsOK == nil || use == nil {
+		return nil, false
+	}
+	def, ok := c.obsCand[o]
+	if !ok || !c.ObsOK(o, def, use) {
+		return nil, false
+	}
+	return def, true
 }
 
 type tupleDef struct {
@@ -38,8 +54,15 @@ func NewCanon(info *types.Info, pkg *types.Package, recv *ast.FieldList, ftype *
 }
 
 // NewCanonAliased is NewCanon with a map of renamed locals: alias[o] is the name under which the rule tables know o.
-func NewCanonAliased(info *types.Info, pkg *types.Package, recv *ast.FieldList, ftype *ast.FuncType, body *ast.BlockStmt, outer *Canon, alias map[types.Object]string) *Canon {
-	c := &Canon{Info: info, Pkg: pkg, roles: map[types.Object]string{}, expand: map[types.Object]ast.Expr{}, tuple: map[types.Object]tupleDef{}, alias: alias, base: map[types.Object]string{}}
+// LocalAlias: the name a local carries in the rule vocabulary and its ordinal among the locals of that name (1 = no
+// suffix, 2 = name_2, ...; 0 = number after the known ones).
+type LocalAlias struct {
+	Name string
+	Ord  int
+}
+
+func NewCanonAliased(info *types.Info, pkg *types.Package, recv *ast.FieldList, ftype *ast.FuncType, body *ast.BlockStmt, outer *Canon, alias map[types.Object]LocalAlias) *Canon {
+	c := &Canon{Info: info, Pkg: pkg, roles: map[types.Object]string{}, expand: map[types.Object]ast.Expr{}, tuple: map[types.Object]tupleDef{}, alias: alias, base: map[types.Object]string{}, obsCand: map[types.Object]ast.Expr{}}
 	if outer != nil {
 		c.alias = outer.alias
 		for k, v := range outer.base {
@@ -198,6 +221,8 @@ func (c *Canon) scanLocals(body *ast.BlockStmt) {
 		}
 		if e, ok := single[o]; ok && c.pureExpr(e) {
 			c.expand[o] = e
+		} else if ok {
+			c.obsCand[o] = e
 		}
 		_ = tup
 	}
@@ -237,6 +262,7 @@ func (c *Canon) nameLocals(body *ast.BlockStmt) {
 	type ent struct {
 		o   types.Object
 		pos token.Pos
+		ord int
 	}
 	by := map[string][]ent{}
 	ast.Inspect(body, func(n ast.Node) bool {
@@ -246,12 +272,12 @@ func (c *Canon) nameLocals(body *ast.BlockStmt) {
 		}
 		if o := c.Info.Defs[id]; o != nil {
 			if _, isVar := o.(*types.Var); isVar {
-				name := id.Name
+				name, ord := id.Name, 0
 				if a, ok := c.alias[o]; ok {
-					name = a
+					name, ord = a.Name, a.Ord
 				}
 				c.base[o] = name
-				by[name] = append(by[name], ent{o, id.Pos()})
+				by[name] = append(by[name], ent{o, id.Pos(), ord})
 			}
 		}
 		return true
@@ -259,12 +285,25 @@ func (c *Canon) nameLocals(body *ast.BlockStmt) {
 	// implicit objects of type switches are in Implicits; they share the symbolic name
 	for name, es := range by {
 		sort.Slice(es, func(i, j int) bool { return es[i].pos < es[j].pos })
-		k := 0
+		used := map[int]bool{}
+		for _, e := range es {
+			if e.ord > 0 {
+				used[e.ord] = true
+			}
+		}
+		next := 1
 		for _, e := range es {
 			if _, ok := c.names[e.o]; ok {
 				continue
 			}
-			k++
+			k := e.ord
+			if k == 0 {
+				for used[next] {
+					next++
+				}
+				k = next
+				used[k] = true
+			}
 			if k == 1 {
 				c.names[e.o] = name
 			} else {
@@ -310,6 +349,11 @@ func (c *Canon) Term(e ast.Expr) string {
 		}
 		if def, ok := c.expand[o]; ok && c.depth < 12 {
 			return c.Term(def)
+		}
+		if c.depth < 12 {
+			if def, ok := c.obsDef(o, x); ok {
+				return c.Term(def)
+			}
 		}
 		if t, ok := c.tuple[o]; ok && c.depth < 12 {
 			return "RES(" + c.Term(t.call) + ", " + strconv.Itoa(t.idx) + ")"
@@ -604,6 +648,10 @@ func (c *Canon) Footprint(f *F) (vars map[types.Object]bool, paths map[string]bo
 						return true
 					}
 				}
+				if def, ok := c.obsDef(o, x); ok {
+					expr(def, depth+1)
+					return true
+				}
 				vars[o] = true
 			}
 			return true
@@ -687,6 +735,9 @@ func (c *Canon) expandExpr(e ast.Expr) ast.Expr {
 				if def, ok := c.expand[o]; ok {
 					return ast.Unparen(def)
 				}
+				if def, ok := c.obsDef(o, id); ok {
+					return ast.Unparen(def)
+				}
 			}
 		}
 	}
@@ -730,6 +781,32 @@ type LocalSig struct {
 
 // LocalSignatures lists the locals declared in body (including those of nested function literals) in declaration order.
 func LocalSignatures(info *types.Info, body *ast.BlockStmt) []LocalSig {
+	return LocalSignaturesRoles(info, nil, nil, body)
+}
+
+// LocalSignaturesRoles is LocalSignatures with the receiver and parameters printed by role (recv, p0, ...), so that a
+// renamed parameter does not change the signatures of the locals computed from it.
+func LocalSignaturesRoles(info *types.Info, recv *ast.FieldList, ftype *ast.FuncType, body *ast.BlockStmt) []LocalSig {
+	roles := map[string]string{}
+	if recv != nil {
+		for _, f := range recv.List {
+			for _, n := range f.Names {
+				roles[n.Name] = "recv"
+			}
+		}
+	}
+	if ftype != nil && ftype.Params != nil {
+		i := 0
+		for _, f := range ftype.Params.List {
+			if len(f.Names) == 0 {
+				i++
+			}
+			for _, n := range f.Names {
+				roles[n.Name] = "p" + strconv.Itoa(i)
+				i++
+			}
+		}
+	}
 	var order []types.Object
 	pos := map[types.Object]token.Pos{}
 	ast.Inspect(body, func(n ast.Node) bool {
@@ -746,7 +823,13 @@ func LocalSignatures(info *types.Info, body *ast.BlockStmt) []LocalSig {
 		return true
 	})
 	defs := map[types.Object][]string{}
-	text := func(e ast.Expr) string { return types.ExprString(e) }
+	text := func(e ast.Expr) string {
+		t := types.ExprString(e)
+		for n, r := range roles {
+			t = replaceIdent(t, n, r)
+		}
+		return t
+	}
 	add := func(lhs ast.Expr, d string) {
 		if id, ok := ast.Unparen(lhs).(*ast.Ident); ok {
 			if o := info.ObjectOf(id); o != nil {
@@ -806,14 +889,19 @@ func LocalSignatures(info *types.Info, body *ast.BlockStmt) []LocalSig {
 }
 
 // replaceOwnName replaces the identifier name by a placeholder, except where it is a selected field or method.
-func replaceOwnName(text, name string) string {
+func replaceOwnName(text, name string) string { return replaceIdent(text, name, "§") }
+
+func replaceIdent(text, name, with string) string {
+	if name == "" || name == "_" {
+		return text
+	}
 	var b strings.Builder
 	isW := func(c byte) bool {
 		return c == '_' || c >= '0' && c <= '9' || c >= 'a' && c <= 'z' || c >= 'A' && c <= 'Z'
 	}
 	for i := 0; i < len(text); {
 		if strings.HasPrefix(text[i:], name) && (i == 0 || !isW(text[i-1]) && text[i-1] != '.') && (i+len(name) == len(text) || !isW(text[i+len(name)])) {
-			b.WriteString("§")
+			b.WriteString(with)
 			i += len(name)
 			continue
 		}
